@@ -5,6 +5,7 @@ VERIF = os.path.dirname(os.path.dirname(os.path.abspath(__file__)))
 
 CHECKS = {
     'C01': 'expect_family', 'C02': 'expect_family', 'C03': 'expect_family', 'C04': 'expect_family',
+    'C20': 'c20',
 }
 
 
